@@ -170,6 +170,9 @@ func TestVerif_Probes(t *testing.T) {
 				continue
 			}
 			two := r.Rand(idx).IntN(2) == 0
+			if r.Violations() >= 3 {
+				continue // fail fast: every stuck probe costs its full timeout
+			}
 			r.LogCase(idx)
 			key, msg, reached := probe(ctl, idx, p, two)
 			if reached {
